@@ -89,5 +89,5 @@ def enum_positions(ctx):
 
 LEGS = [
     Leg("positions", chk_cs, enum=enum_positions, exhaustive=True, doc="every legal code at every position (8 x 37)"),
-    Leg("strings", chk_cs, strategy=s_cs, quick=12000, thorough=1500000, doc="random identifications with a one-character change"),
+    Leg("strings", chk_cs, strategy=s_cs, quick=12000, thorough=600000, doc="random identifications with a one-character change"),
 ]
